@@ -65,14 +65,15 @@ Definition acase_spec_ok (c : acase) : bool := ac_msg_ok c && option_eqb exc_eqb
 Definition switches (cf : acfg) : list (nat * bool) :=
   [(182%nat, d_merge_same_name (a_dv cf)); (183%nat, d_deco_rename (a_dv cf)); (184%nat, d_chain_ctx (a_dv cf));
    (185%nat, d_node_start_line (a_dv cf)); (186%nat, d_with_swallow (a_dv cf)); (187%nat, d_import_sticky (a_dv cf));
-   (189%nat, a_stopiter cf)].
+   (190%nat, d_lambda_name (a_dv cf)); (189%nat, a_stopiter cf)].
 
 Definition with_off (k : nat) (cf : acfg) : acfg :=
   let d := a_dv cf in
   let nb := Nat.eqb k in
   mkACfg (mkDev (d_merge_same_name d && negb (nb 182%nat)) (d_deco_rename d && negb (nb 183%nat))
                 (d_chain_ctx d && negb (nb 184%nat)) (d_node_start_line d && negb (nb 185%nat))
-                (d_with_swallow d && negb (nb 186%nat)) (d_import_sticky d && negb (nb 187%nat)))
+                (d_with_swallow d && negb (nb 186%nat)) (d_import_sticky d && negb (nb 187%nat))
+                (d_lambda_name d && negb (nb 190%nat)))
          (a_stopiter cf && negb (nb 189%nat)).
 
 Definition pred_eqb (a b : res exc_py) : bool := option_eqb (option_eqb exc_eqb) (res_obs a) (res_obs b).
